@@ -10,9 +10,15 @@ package broadcast
 //     pending timeout the block is handed over (identical, once); when the timeout passes first nothing is handed over,
 //     the block leaves the pending list and a block request (blockReqMsgID, that height) is published to the peer the
 //     light block was received from.
-// Time is never slept on for a verdict: the configured timeout is one hour, "the timeout passes" is modelled by moving
-// the pending entry's receive timestamp three hours into the past, and background passes are buildPendList calls made
-// by the harness.  Only the "request is published" step needs the real pendBlockLoop (the request is sent from the loop
+// Time is never slept on for a verdict.  The protocol reads time through types.Now(), the NTP-corrected clock whose
+// correction is set with the exported types.SetTimeDelta (what the node's fixTime routine does, +-300 s).  Every case
+// installs a generated correction BEFORE the light block arrives (0 in half of the cases, otherwise +-[1 s, 300 s]
+// including values around the pending timeout) and keeps it; "X of protocol time passes" = SetTimeDelta(current + X),
+// restored at the end of the case (the correction is process-global; cases of a process run one after the other).  The
+// configured timeout is 60 s (20 s in the same-height property), "the timeout passes" is an advance of 1.5 timeouts,
+// and background passes are buildPendList calls made by the harness.  Real time that elapses meanwhile counts as
+// protocol time too: an assertion "not timed out yet" is only made while real + advanced time since arrival is at
+// least 5 s below the timeout (otherwise the case is inconclusive, never a violation).  Only the "request is published" step needs the real pendBlockLoop (the request is sent from the loop
 // body): it is run until the pending list is empty (watchdog => inconclusive), then stopped, and the protocol's
 // outgoing channel is read up to a marker.
 //
@@ -43,6 +49,66 @@ type c34Case struct {
 	Drive   string   `json:"drive"`   // direct | loop : how the timeout is observed
 	Height  int64    `json:"height"`
 	Salt    int      `json:"salt"`
+	Delta   int      `json:"clockDeltaSec"` // clock correction (types.SetTimeDelta) in force when the light block arrives and throughout
+	Early   int      `json:"earlySec"`      // protocol time that passes right after arrival, still below the timeout
+}
+
+const (
+	c34Timeout      = 60 * time.Second // LtBlockPendTimeout of TestPropLightBlockRebuild
+	c34MultiTimeout = 20 * time.Second // ... of TestPropLightBlockSameHeight
+	c34Margin       = 5 * time.Second
+)
+
+// c34Clock drives the protocol's clock through the exported correction.
+type c34Clock struct {
+	orig, cur int64
+	timeout   time.Duration
+	t0        time.Time     // real time of the arrival being watched
+	adv       time.Duration // protocol time advanced since t0
+}
+
+func c34StartClock(deltaSec int, timeout time.Duration) *c34Clock {
+	orig := int64(types.Now().Sub(time.Now()).Round(time.Millisecond)) // the correction in force (0 in a test process)
+	k := &c34Clock{orig: orig, cur: orig, timeout: timeout, t0: time.Now()}
+	k.advance(time.Duration(deltaSec) * time.Second)
+	return k
+}
+
+func (k *c34Clock) advance(d time.Duration) {
+	k.cur += int64(d)
+	k.adv += d
+	if k.cur > int64(300*time.Second) || k.cur < -int64(300*time.Second) {
+		lib.Inconclusive("harness: clock correction %d ns outside what SetTimeDelta accepts", k.cur)
+	}
+	types.SetTimeDelta(k.cur)
+}
+
+func (k *c34Clock) restore()     { types.SetTimeDelta(k.orig) }
+func (k *c34Clock) arrived()     { k.t0, k.adv = time.Now(), 0 }
+func (k *c34Clock) pastTimeout() { k.advance(k.timeout + k.timeout/2) }
+
+// early: called before an assertion that the block has NOT timed out; gives up when real time ate the margin.
+func (k *c34Clock) early() {
+	if e := time.Since(k.t0) + k.adv; e > k.timeout-c34Margin {
+		lib.Inconclusive("case ran too slowly: %v of protocol time since arrival, timeout %v", e, k.timeout)
+	}
+}
+
+// c34GenDelta: 0 in half of the cases, otherwise +-[1 s, 300 s] with values around the timeout; hi is the largest
+// correction that leaves room for the advances the case will add (SetTimeDelta accepts +-300 s).
+func c34GenDelta(t *rapid.T, timeout time.Duration, hi int) int {
+	if rapid.Bool().Draw(t, "clockCorrected") {
+		T := int(timeout / time.Second)
+		d := rapid.SampledFrom([]int{1, -1, 5, -5, T / 2, -T / 2, T - 1, -(T - 1), T, -T, T + 1, -(T + 1), 2 * T, -2 * T, hi, -299, -300,
+			rapid.IntRange(-300, hi).Draw(t, "anyDelta")}).Draw(t, "delta")
+		if d > hi {
+			d = hi
+		}
+		if d != 0 {
+			return d
+		}
+	}
+	return 0
 }
 
 type c34Unit struct {
@@ -90,6 +156,8 @@ func c34Gen(t *rapid.T) c34Case {
 	c.Idle = rapid.IntRange(0, 2).Draw(t, "idle")
 	c.Drive = rapid.SampledFrom([]string{"direct", "direct", "loop"}).Draw(t, "drive")
 	c.Height = rapid.Int64Range(2, 1000).Draw(t, "height")
+	c.Early = rapid.SampledFrom([]int{0, 0, 20, 45}).Draw(t, "early")
+	c.Delta = c34GenDelta(t, c34Timeout, 300-45-90)
 	return c
 }
 
@@ -174,8 +242,10 @@ func c34Same(f *vfFix, want, got *types.Block) string {
 func c34Run(t lib.TB, test string, c c34Case) {
 	f := vfGet()
 	f.reset()
-	v := f.newProto(3600 * 1000)
+	v := f.newProto(int64(c34Timeout / time.Millisecond))
 	defer v.close()
+	clock := c34StartClock(c.Delta, c34Timeout)
+	defer clock.restore()
 	fail := func(format string, a ...interface{}) { lib.Violation(t, "C34", test, c, format, a...) }
 	block, units := c34Build(f, c)
 	sender, publisher := f.peers[0], f.peers[1]
@@ -190,6 +260,7 @@ func c34Run(t lib.TB, test string, c c34Case) {
 	// the light block arrives on the real receive path (decode, duplicate filter, addLtBlock)
 	lt := v.buildLtBlock(block)
 	raw := v.psub.encodeMsg(lt, new([]byte))
+	clock.arrived()
 	v.psub.handleSubMsg(vfOneMsg(psLtBlockTopic, raw, sender, publisher))
 	pendLen := func() int {
 		v.ltB.pdBlockLock.Lock()
@@ -228,9 +299,12 @@ func c34Run(t lib.TB, test string, c c34Case) {
 	if pendLen() != 1 {
 		fail("light block with %d missing units: pending list has %d entries, expected 1", len(missing), pendLen())
 	}
+	clock.advance(time.Duration(c.Early) * time.Second)
 	for i := 0; i < c.Idle; i++ {
-		if tb := v.ltB.buildPendList(); len(tb) != 0 {
-			fail("background pass %d before the timeout reported a timed-out block", i)
+		tb := v.ltB.buildPendList()
+		clock.early()
+		if len(tb) != 0 {
+			fail("background pass %d, %d s after arrival (timeout %v), reported a timed-out block", i, c.Early, c34Timeout)
 		}
 		expectPosted("while waiting", 0)
 	}
@@ -244,7 +318,11 @@ func c34Run(t lib.TB, test string, c c34Case) {
 					remaining++
 				}
 			}
-			if tb := v.ltB.buildPendList(); len(tb) != 0 {
+			tb := v.ltB.buildPendList()
+			if wantPosted > 0 {
+				clock.early()
+			}
+			if len(tb) != 0 {
 				fail("%s: background pass reported a timed-out block", when)
 			}
 			if remaining > 0 {
@@ -263,12 +341,8 @@ func c34Run(t lib.TB, test string, c c34Case) {
 		noRequest("rebuilt before the timeout")
 		return
 	}
-	// the timeout passes: three hours against a one hour timeout
-	v.ltB.pdBlockLock.Lock()
-	for it := v.ltB.pendBlockList.Front(); it != nil; it = it.Next() {
-		it.Value.(*pendBlock).receiveTimeStamp -= int64(3 * time.Hour)
-	}
-	v.ltB.pdBlockLock.Unlock()
+	// the timeout passes: 1.5 timeouts of protocol time on top of whatever has passed
+	clock.pastTimeout()
 	if c.Drive == "direct" {
 		tb := v.ltB.buildPendList()
 		if len(tb) != 1 || tb[0].block.GetHeight() != c.Height || tb[0].fromPeer != sender {
@@ -280,7 +354,7 @@ func c34Run(t lib.TB, test string, c c34Case) {
 		go func() { v.ltB.pendBlockLoop(); close(done) }()
 		for i := 0; pendLen() != 0; i++ {
 			if i > 3000 {
-				lib.Inconclusive("pendBlockLoop did not take the timed-out block within 60s")
+				lib.Inconclusive("pendBlockLoop did not take the timed-out block within 60s of real time")
 			}
 			time.Sleep(20 * time.Millisecond)
 		}
@@ -328,6 +402,7 @@ func c34Classes(c c34Case) (nontrivial bool) {
 		}
 	}
 	lib.Class("pattern_" + c.Pattern)
+	c34DeltaClass(c.Delta, c34Timeout)
 	switch {
 	case missing == 0:
 		lib.Class("complete")
@@ -368,6 +443,10 @@ func TestRegress_C34Fixed(t *testing.T) {
 		{N: 4, Groups: [][2]int{{2, 2}}, Pattern: "allButOne", Present: []bool{true, false}, Arrive: "before", Batches: 1, Idle: 1, Drive: "direct", Height: 10, Salt: 1},
 		{N: 4, Groups: [][2]int{{2, 2}}, Pattern: "allButOne", Present: []bool{true, false}, Arrive: "never", Batches: 1, Drive: "loop", Height: 10, Salt: 2},
 		{N: 6, Groups: [][2]int{{1, 2}, {4, 2}}, Pattern: "none", Present: []bool{false, false, false}, Arrive: "after", Batches: 2, Drive: "direct", Height: 7, Salt: 3},
+		// node clock behind / ahead of real time by about one pending timeout (NTP correction installed before arrival)
+		{N: 4, Groups: [][2]int{{2, 2}}, Pattern: "allButOne", Present: []bool{true, false}, Arrive: "before", Batches: 1, Idle: 2, Drive: "direct", Height: 10, Salt: 4, Delta: 61, Early: 45},
+		{N: 4, Groups: [][2]int{{2, 2}}, Pattern: "allButOne", Present: []bool{true, false}, Arrive: "never", Batches: 1, Idle: 1, Drive: "direct", Height: 10, Salt: 5, Delta: -61},
+		{N: 4, Groups: [][2]int{{2, 2}}, Pattern: "allButOne", Present: []bool{false, true}, Arrive: "never", Batches: 1, Drive: "loop", Height: 10, Salt: 6, Delta: 150},
 	}
 	for _, c := range cases {
 		lib.Eval()
@@ -395,10 +474,12 @@ type c34MultiCase struct {
 	Height     int64        `json:"height"`
 	Sequential bool         `json:"sequential"` // each sibling is resolved before the next arrives
 	Siblings   []c34Sibling `json:"siblings"`
+	Delta      int          `json:"clockDeltaSec"` // clock correction in force for the whole case
 }
 
 func c34GenMulti(t *rapid.T) c34MultiCase {
 	c := c34MultiCase{Height: rapid.Int64Range(2, 1000).Draw(t, "height"), Sequential: rapid.Bool().Draw(t, "sequential")}
+	c.Delta = c34GenDelta(t, c34MultiTimeout, 300-3*30)
 	k := rapid.IntRange(2, 3).Draw(t, "siblings")
 	senders := rapid.Permutation([]int{0, 1, 2}).Draw(t, "senders")
 	for i := 0; i < k; i++ {
@@ -436,8 +517,10 @@ func c34GenMulti(t *rapid.T) c34MultiCase {
 func c34RunMulti(t lib.TB, test string, c c34MultiCase) {
 	f := vfGet()
 	f.reset()
-	v := f.newProto(3600 * 1000)
+	v := f.newProto(int64(c34MultiTimeout / time.Millisecond))
 	defer v.close()
+	clock := c34StartClock(c.Delta, c34MultiTimeout)
+	defer clock.restore()
 	fail := func(format string, a ...interface{}) { lib.Violation(t, "C34", test, c, format, a...) }
 	atomic.StoreInt64(&v.currHeight, c.Height-1)
 	pendLen := func() int {
@@ -479,6 +562,10 @@ func c34RunMulti(t lib.TB, test string, c c34MultiCase) {
 			}
 		}
 		lt := v.buildLtBlock(blocks[i])
+		if expectPending == 0 {
+			clock.arrived() // the oldest entry that is to stay pending decides how much real time the case may take
+		}
+		arrivedAt := time.Now()
 		v.psub.handleSubMsg(vfOneMsg(psLtBlockTopic, v.psub.encodeMsg(lt, new([]byte)), f.peers[s.Sender], f.peers[s.Sender]))
 		key := string(blocks[i].Hash(f.cfg))
 		lib.Class("sibling_" + s.Fate)
@@ -486,25 +573,29 @@ func c34RunMulti(t lib.TB, test string, c c34MultiCase) {
 		case len(missing) == 0:
 			wantPost[key] = blocks[i]
 		case s.Fate == "arrive":
+			// its transactions arrive well before the timeout (no protocol time is advanced while it waits)
 			wantPost[key] = blocks[i]
-			waitPend(expectPending+1, "sibling pending")
 			for _, u := range missing {
 				f.poolAdd(units[i][u].poolTx)
 			}
 			waitPend(expectPending, "sibling rebuilt after its transactions arrived")
+			if time.Since(arrivedAt) > c34MultiTimeout-c34Margin {
+				lib.Inconclusive("case ran too slowly: %v of real time before the sibling was rebuilt, timeout %v", time.Since(arrivedAt), c34MultiTimeout)
+			}
+			clock.early() // nor may the older entries that are to stay pending have aged out meanwhile
 		default: // timeout
 			wantReq[v.getPeerTopic(f.peers[s.Sender])]++
 			expectPending++
-			waitPend(expectPending, "sibling pending")
 			if c.Sequential {
-				c34Age(v)
+				clock.pastTimeout()
 				expectPending--
 				waitPend(expectPending, "timed-out sibling removed")
 			}
 		}
 	}
 	if expectPending > 0 {
-		c34Age(v)
+		clock.early() // up to here nothing may have timed out on real time alone
+		clock.pastTimeout()
 		waitPend(0, "timed-out siblings removed")
 	}
 	v.cancel()
@@ -552,15 +643,6 @@ func c34RunMulti(t lib.TB, test string, c c34MultiCase) {
 	}
 }
 
-// c34Age lets the pending timeout pass for everything that is pending now.
-func c34Age(v *vfProto) {
-	v.ltB.pdBlockLock.Lock()
-	for it := v.ltB.pendBlockList.Front(); it != nil; it = it.Next() {
-		it.Value.(*pendBlock).receiveTimeStamp -= int64(3 * time.Hour)
-	}
-	v.ltB.pdBlockLock.Unlock()
-}
-
 // Non-trivial: at least two different light blocks of the height time out (each must get its own request).
 func TestPropLightBlockSameHeight(t *testing.T) {
 	defer lib.Flush()
@@ -573,6 +655,7 @@ func TestPropLightBlockSameHeight(t *testing.T) {
 				timeouts++
 			}
 		}
+		c34DeltaClass(c.Delta, c34MultiTimeout)
 		if c.Sequential {
 			lib.Class("siblings_sequential")
 		} else {
@@ -584,4 +667,20 @@ func TestPropLightBlockSameHeight(t *testing.T) {
 			lib.NonTrivialCase(c)
 		}
 	})
+}
+
+func c34DeltaClass(delta int, timeout time.Duration) {
+	T := int(timeout / time.Second)
+	switch {
+	case delta == 0:
+		lib.Class("clock_delta_0")
+	case delta >= T:
+		lib.Class("clock_behind_by_timeout_or_more")
+	case delta > 0:
+		lib.Class("clock_behind_less_than_timeout")
+	case delta <= -T:
+		lib.Class("clock_ahead_by_timeout_or_more")
+	default:
+		lib.Class("clock_ahead_less_than_timeout")
+	}
 }
